@@ -1,4 +1,5 @@
-(* Which extracted monitors exist, and how their verdicts are printed: "C09:1 C07:0 ..." *)
+(* Which extracted monitors exist, and how their verdicts are printed: "C09:1 C07:0 ..."
+   "-" = the property's domain (accepted and well-formed) does not contain this program. *)
 module M = Model
 
 let b2s b = if b then "1" else "0"
@@ -10,7 +11,10 @@ let c05_fuel = try int_of_string (Sys.getenv "VERIF_C05_FUEL") with _ -> 400
 
 let run_all (p : M.program) (o : M.output) : string =
   let accepted = o.M.o_errors = [] in
+  let wf = M.wf_b p in
+  let dom = accepted && wf in
   let k = nat_of_int c05_k and fuel = nat_of_int c05_fuel in
+  let intended = match M.first_violation false p with None -> "none" | Some v -> Driver.ostr (M.err_kind_name v.M.vi_kind) in
   String.concat " "
     [ "C09:" ^ b2s (M.chk_C09 o);
       "C07:" ^ b2s (M.chk_C07 p o);
@@ -18,8 +22,23 @@ let run_all (p : M.program) (o : M.output) : string =
       "C12:" ^ b2s (M.chk_C12 o);
       "C15:" ^ b2s (M.chk_C15 p o);
       "C18:" ^ b2s (M.chk_C18 p o);
+      "C14:" ^ b2s (M.chk_C14 p o);
+      "C02:" ^ b2s (M.chk_C02 p o);
+      "C01:" ^ b2s (M.chk_C01 p o);
+      "C01q:" ^ b2s (M.chk_C01_quirk p o);
+      "wf:" ^ b2s wf;
+      "dom13:" ^ b2s (M.in_domain_b p);
+      "wfe:" ^ b2s (M.accepted_spec_b p);
+      "iv:" ^ intended;
+      "C03:" ^ (if dom then b2s (M.chk_C03 p o) else "-");
+      "C04:" ^ (if dom then b2s (M.chk_C04 p o) else "-");
+      "C06:" ^ (if dom then b2s (M.chk_C06 p o && M.chk_C06_scoped p o) else "-");
+      "C19:" ^ (if dom then b2s (M.chk_C19 p o) else "-");
+      "C08q:" ^ (if dom then b2s (M.chk_C08 true o) else "-");
+      "C08i:" ^ (if dom then b2s (M.chk_C08 false o) else "-");
+      "f7:" ^ string_of_int (nat_to_int (M.f7_count o));
       "C10u:" ^ b2s (M.chk_C10_unique o);
-      "C10r:" ^ (if accepted then b2s (M.chk_C10_resolve o) else "-");
-      "C11:" ^ (if accepted then b2s (M.chk_C11 p o) else "-");
-      "C05q:" ^ (if accepted then b2s (M.chk_C05 true k fuel p o) else "-");
-      "C05i:" ^ (if accepted then b2s (M.chk_C05 false k fuel p o) else "-") ]
+      "C10r:" ^ (if dom then b2s (M.chk_C10_resolve o) else "-");
+      "C11:" ^ (if dom then b2s (M.chk_C11 p o) else "-");
+      "C05q:" ^ (if dom then b2s (M.chk_C05 true k fuel p o) else "-");
+      "C05i:" ^ (if dom then b2s (M.chk_C05 false k fuel p o) else "-") ]
